@@ -31,95 +31,4 @@ def tcCond (lo hi x : Int) : Bool :=
   else if hi != tcMaxTime then decide (x ≤ hi)
   else true
 
-theorem clusterOf_eq (t d : Int) : clusterOf t d = d * t.tdiv d := by
-  unfold clusterOf
-  rw [Int.tmod_def]
-  omega
-
-theorem tdiv_mono (d : Int) (hd : 0 < d) (a b : Int) (h : a ≤ b) : a.tdiv d ≤ b.tdiv d := by
-  by_cases ha : 0 ≤ a
-  · rw [Int.tdiv_eq_ediv_of_nonneg ha, Int.tdiv_eq_ediv_of_nonneg (by omega)]
-    exact Int.ediv_le_ediv hd h
-  · by_cases hb : 0 ≤ b
-    · have h1 : a.tdiv d ≤ 0 := by
-        have e := Int.neg_tdiv a d
-        have := Int.tdiv_nonneg (a := -a) (b := d) (by omega) (by omega)
-        omega
-      have h2 := Int.tdiv_nonneg (a := b) (b := d) hb (by omega)
-      omega
-    · have ea := Int.neg_tdiv a d
-      have eb := Int.neg_tdiv b d
-      have e1 := Int.tdiv_eq_ediv_of_nonneg (a := -a) (b := d) (by omega)
-      have e2 := Int.tdiv_eq_ediv_of_nonneg (a := -b) (b := d) (by omega)
-      have := Int.ediv_le_ediv hd (show -b ≤ -a by omega)
-      omega
-
-/-- truncation toward zero is monotone. -/
-theorem clusterOf_mono (d : Int) (hd : 0 < d) (a b : Int) (h : a ≤ b) : clusterOf a d ≤ clusterOf b d := by
-  rw [clusterOf_eq, clusterOf_eq]
-  exact Int.mul_le_mul_of_nonneg_left (tdiv_mono d hd a b h) (by omega)
-
-theorem clusterOf_nonneg (d : Int) (hd : 0 < d) (a : Int) (ha : 0 ≤ a) : 0 ≤ clusterOf a d ∧ clusterOf a d ≤ a := by
-  unfold clusterOf
-  rw [Int.tmod_eq_emod_of_nonneg ha]
-  have h1 := Int.emod_nonneg a (show d ≠ 0 by omega)
-  have h2 : a % d ≤ a := by
-    by_cases h : a < d
-    · rw [Int.emod_eq_of_lt ha h]; omega
-    · have := Int.emod_lt_of_pos a hd; omega
-  omega
-
-theorem clusterOf_nonpos (d : Int) (hd : 0 < d) (a : Int) (ha : a ≤ 0) : a ≤ clusterOf a d ∧ clusterOf a d ≤ 0 := by
-  have h := clusterOf_nonneg d hd (-a) (by omega)
-  have : clusterOf a d = -(clusterOf (-a) d) := by
-    rw [clusterOf_eq, clusterOf_eq, Int.neg_tdiv, Int.mul_neg]
-    omega
-  omega
-
-/-- **T1** the rounded time range of the query contains the cluster value of every row whose
-time lies in the query's time range: the time-cluster condition never excludes such a row
-(any cluster duration, open ranges `MinTime` / `MaxTime`, times before 1970 included). -/
-theorem timeCluster_range_sound (d tmin tmax t : Int) (hd : 0 < d)
-    (h1 : tmin ≤ t) (h2 : t ≤ tmax) (hlo : tcMinTime ≤ tmin) (hhi : tmax ≤ tcMaxTime)
-    (ht1 : tcMinTime < t) (ht2 : t < tcMaxTime) :
-    tcCond (tcWindow tmin d) (tcWindow tmax d) (clusterOf t d) = true := by
-  have m1 := clusterOf_mono d hd tmin t h1
-  have m2 := clusterOf_mono d hd t tmax h2
-  have bmin : (0 ≤ tmin → 0 ≤ clusterOf tmin d ∧ clusterOf tmin d ≤ tmin) ∧
-      (tmin ≤ 0 → tmin ≤ clusterOf tmin d ∧ clusterOf tmin d ≤ 0) :=
-    ⟨clusterOf_nonneg d hd tmin, clusterOf_nonpos d hd tmin⟩
-  have bmax : (0 ≤ tmax → 0 ≤ clusterOf tmax d ∧ clusterOf tmax d ≤ tmax) ∧
-      (tmax ≤ 0 → tmax ≤ clusterOf tmax d ∧ clusterOf tmax d ≤ 0) :=
-    ⟨clusterOf_nonneg d hd tmax, clusterOf_nonpos d hd tmax⟩
-  have eL : tcWindow tmin d = if tmin = tcMinTime then tmin else clusterOf tmin d := by
-    unfold tcWindow clusterOf
-    have : tmin ≠ tcMaxTime := by omega
-    have : d ≠ 0 := by omega
-    by_cases h : tmin = tcMinTime <;> simp_all
-  have eH : tcWindow tmax d = if tmax = tcMaxTime then tmax else clusterOf tmax d := by
-    unfold tcWindow clusterOf
-    have : tmax ≠ tcMinTime := by omega
-    have : d ≠ 0 := by omega
-    by_cases h : tmax = tcMaxTime <;> simp_all
-  rw [eL, eH]
-  generalize clusterOf t d = x at *
-  generalize clusterOf tmin d = l at *
-  generalize clusterOf tmax d = hh at *
-  have c1 : tcMinTime = -9223372036854775806 := rfl
-  have c2 : tcMaxTime = 9223372036854775806 := rfl
-  unfold tcCond
-  by_cases e1 : tmin = tcMinTime <;> by_cases e2 : tmax = tcMaxTime <;>
-    simp only [e1, e2, if_true, if_false, beq_iff_eq, bne_iff_ne, ne_eq, Bool.and_eq_true, decide_eq_true_eq] <;>
-    (repeat' split) <;> simp_all <;> omega
-
-/-- non-vacuity: duration 10, query range [-25, 37], a row at -21 (cluster -20) and one at 37. -/
-example : tcCond (tcWindow (-25) 10) (tcWindow 37 10) (clusterOf (-21) 10) = true := by decide
-example : tcCond (tcWindow (-25) 10) (tcWindow 37 10) (clusterOf 37 10) = true := by decide
-/-- and the condition is in use: a row at 45 (cluster 40) is outside. -/
-example : tcCond (tcWindow (-25) 10) (tcWindow 37 10) (clusterOf 45 10) = false := by decide
-
-/-- rounding the upper end *up* to the next window start instead would still be sound, rounding
-the lower end up is not: the shape `t - t%w + w` for the lower bound excludes the row at -21. -/
-example : tcCond ((-25) - Int.tmod (-25) 10 + 10) (tcWindow 37 10) (clusterOf (-21) 10) = false := by decide
-
 end OG.C20.TC
